@@ -19,7 +19,7 @@ mod seq;
 mod sut;
 
 use vcore::rng::hash_str;
-use vcore::{Ctx, Obs, Spec};
+use vcore::{Ctx, Failure, Obs, Spec};
 
 pub const CHILD_FLAG: &str = "--c06-child";
 
@@ -47,8 +47,7 @@ fn conc_part(ctx: &mut Ctx, part: &str, procs: bool, total: u64, reps: u16) {
     if let Some(case) = ctx.replay_case::<conc::ConcCase>(part) {
         // not bit-reproducible: the same programs and seed, up to 20 executions
         for _ in 0..20 {
-            let mut obs = Obs::default();
-            let r = Ctx::guarded(|| conc::run(&case, &mut obs, &|s| ctx.is_open_finding(s)));
+            let (obs, r) = run_conc_forked(ctx, &case);
             ctx.record(part, 0, &obs, || serde_json::to_value(&case).unwrap());
             match r {
                 Ok(tolerated) => {
@@ -67,8 +66,17 @@ fn conc_part(ctx: &mut Ctx, part: &str, procs: bool, total: u64, reps: u16) {
     let mut rng = ctx.rng(part);
     for _ in 0..ctx.share(total) {
         let case = conc::random_case(&mut rng, procs, reps);
-        let mut obs = Obs::default();
-        let r = Ctx::guarded(|| conc::run(&case, &mut obs, &|s| ctx.is_open_finding(s)));
+        // every case runs in a forked copy of this (single-threaded) worker: iceoryx2's fatal panics
+        // abort the process, and an abort must end one case, not the worker's whole share
+        let (mut obs, r) = run_conc_forked(ctx, &case);
+        let r = match r {
+            // a starved machine is not a verdict
+            Err(f) if f.signature == "harness.slow" => {
+                obs.discarded = true;
+                Ok(vec![])
+            }
+            r => r,
+        };
         let key = hash_str(&serde_json::to_string(&case).unwrap());
         ctx.record(part, key, &obs, || serde_json::to_value(&case).unwrap());
         match r {
@@ -86,6 +94,30 @@ fn conc_part(ctx: &mut Ctx, part: &str, procs: bool, total: u64, reps: u16) {
             }
         }
     }
+}
+
+/// Abort signature of a consequence of the known double destruction (see known_findings.jsonl):
+/// a node that still holds a handle of a service whose static config a slower second destroyer
+/// removed calls `create` for that name; the creation succeeds (two services of one name) and
+/// `RegisteredServices::insert` ends the process with "was already registered".
+const ABORT_ALREADY_REGISTERED: &str = "conc.abort.create_by_node_still_holding_the_doubly_destroyed_service";
+
+fn run_conc_forked(ctx: &Ctx, case: &conc::ConcCase) -> (Obs, Result<Vec<Failure>, Failure>) {
+    let (obs, r) = Ctx::forked_value(std::time::Duration::from_secs(600), "conc.case", true, |obs| {
+        let tolerated = conc::run(case, obs, &|s| ctx.is_open_finding(s))?;
+        Ok(vcore::json!(tolerated.iter().map(|f| vcore::json!([f.signature, f.message])).collect::<Vec<_>>()))
+    });
+    let r = match r {
+        Ok(v) => Ok(v
+            .as_array()
+            .map(|a| a.iter().map(|x| Failure::new(x[0].as_str().unwrap_or("?"), x[1].as_str().unwrap_or("?"))).collect())
+            .unwrap_or_default()),
+        Err(f) if f.signature == "conc.case.crash" && f.message.contains("RegisteredServices::insert()") && f.message.contains("was already registered") => {
+            Err(Failure::new(ABORT_ALREADY_REGISTERED, f.message))
+        }
+        Err(f) => Err(f),
+    };
+    (obs, r)
 }
 
 /// Root cause probe of the known finding `conc.double_destruction...`: iceoryx2 treats
